@@ -95,11 +95,18 @@ func driveC16(t *testing.T, out *vEmitter) {
 			e.opts.Server.SecureBindAddress = "127.0.0.1:8443"
 			e.rebuildChains()
 		}
+		// the request's own Host (also empty: HTTP/1.0 without a Host header) and peer address (TCP, or "@" as
+		// net/http reports it on a unix-socket listener)
+		type origin struct{ host, remote string }
+		origins := []origin{{"app.example.com", ""}, {"app.example.com", "192.0.2.10:40000"}, {"", "192.0.2.10:40000"}, {"app.example.com", "@"}, {"", "@"}}
+		for _, og := range origins {
 		for _, ep := range endpoints {
-			baseReq, err := vRawRequest(vBuildRaw(ep.method, ep.target, "app.example.com", nil, ""))
+			hostHdr, remoteAddr := og.host, og.remote
+			baseReq, err := vRawRequest(vBuildRaw(ep.method, ep.target, hostHdr, nil, ""))
 			if err != nil {
 				t.Fatal(err)
 			}
+			baseReq.RemoteAddr = remoteAddr
 			base := vDecision(e, e.serve(baseReq))
 			// subsets: each header alone, all together, and a few pairs
 			var subsets [][][2]string
@@ -108,17 +115,21 @@ func driveC16(t *testing.T, out *vEmitter) {
 			}
 			subsets = append(subsets, fwdHeaders, [][2]string{fwdHeaders[0], fwdHeaders[2], fwdHeaders[4]}, [][2]string{fwdHeaders[1], fwdHeaders[3], fwdHeaders[5], fwdHeaders[8]})
 			for _, hs := range subsets {
-				req, err := vRawRequest(vBuildRaw(ep.method, ep.target, "app.example.com", hs, ""))
+				req, err := vRawRequest(vBuildRaw(ep.method, ep.target, hostHdr, hs, ""))
 				if err != nil {
 					continue
 				}
+				req.RemoteAddr = remoteAddr
 				got := vDecision(e, e.serve(req))
 				out.Obs("pair-off", true, vL("pair", vS(c.name), vS(ep.target), vI(int64(len(hs))), vBool(got == base)))
 				out.Stat("pairs_reverse_proxy_off", 1)
 				if got != base {
 					out.Violation("forwarding/header-changes-decision", "with reverse-proxy off a forwarding header changed the proxy's decision or response",
-						map[string]interface{}{"config": c.name, "endpoint": ep.method + " " + ep.target, "headers": fmt.Sprint(hs), "without": base, "with": got})
+						map[string]interface{}{"config": c.name, "endpoint": ep.method + " " + ep.target, "headers": fmt.Sprint(hs), "without": base, "with": got, "host": hostHdr, "remote": remoteAddr})
 				}
+			}
+			if og != origins[0] {
+				continue
 			}
 			// correspondence: the OAuth redirect URI
 			for _, hs := range subsets[:7] {
@@ -129,6 +140,7 @@ func driveC16(t *testing.T, out *vEmitter) {
 				req = middlewareapi.AddRequestScope(req, &middlewareapi.RequestScope{ReverseProxy: false})
 				vOAuthRedirectCase(out, e, req, false)
 			}
+		}
 		}
 		// ---- reverse-proxy on: only the configured client-IP header can flip the trusted-IP decision ----
 		for _, configured := range []string{"X-Real-IP", "X-Forwarded-For"} {
